@@ -209,22 +209,35 @@ struct Q {
 }
 
 fn one_matrix(names: &[String], cells: &[f64], ultrametric: bool, q: &mut Q, rep: &mut Report, label: &str) {
-    one_matrix_scaled(names, cells, ultrametric, q, rep, label, 0)
+    one_matrix_scaled(names, cells, ultrametric, q, rep, label, 0);
+    // the same matrix with its zero distances written with the sign bit set (what "-0.000000" in a Phylip file parses to): a
+    // zero is a zero, the run must be the same (every third matrix that has a zero)
+    if cells.iter().any(|v| *v == 0.0) && cells.len() % 3 == 0 {
+        one_matrix_scaled(names, cells, ultrametric, q, rep, label, NEG_ZERO);
+    }
 }
+
+/// pseudo scale exponent: no scaling, zeros replaced by -0.0
+const NEG_ZERO: i32 = i32::MIN;
 
 /// `cells` are integers; the crate sees them multiplied by 2^scale_exp (exact), the model and the definitional
 /// clustering see the integers, and every length / height is compared after the same exact scaling: magnitudes far from 1
 /// (1e-24, 1e+60) must not change a single decision
 fn one_matrix_scaled(names: &[String], cells: &[f64], ultrametric: bool, q: &mut Q, rep: &mut Report, label: &str, scale_exp: i32) {
+    let neg_zero = scale_exp == NEG_ZERO;
+    let scale_exp = if neg_zero { 0 } else { scale_exp };
     let scale = 2f64.powi(scale_exp);
     let int_cells = cells;
-    let scaled: Vec<f64> = cells.iter().map(|v| v * scale).collect();
+    let scaled: Vec<f64> = cells.iter().map(|v| if neg_zero && *v == 0.0 { -0.0 } else { v * scale }).collect();
+    if neg_zero {
+        rep.count("zeros_written_as_negative_zero");
+    }
     let cells = &scaled[..];
     let dup_names = { let mut u = names.to_vec(); u.sort(); u.dedup(); u.len() != names.len() };
     let n = names.len();
     let req = format!("up.run\t{}\t{}", if names.is_empty() { "_".to_string() } else { names.iter().map(|x| hex(x)).collect::<Vec<_>>().join(",") },
         if int_cells.is_empty() { "_".to_string() } else { int_cells.iter().map(|v| format!("{}", *v as i64)).collect::<Vec<_>>().join(" ") });
-    let req_ctx = if scale_exp == 0 { req.clone() } else { format!("{req}\t(real matrix = these integers x 2^{scale_exp})") };
+    let req_ctx = if neg_zero { format!("{req}\t(real matrix: every zero written as -0.0)") } else if scale_exp == 0 { req.clone() } else { format!("{req}\t(real matrix = these integers x 2^{scale_exp})") };
     rep.case(&req_ctx, n >= 3);
     if scale_exp != 0 {
         rep.count(&format!("scaled_by_2^{scale_exp}"));
